@@ -702,7 +702,10 @@ def step (m : M) : M :=
           let s := s.consumeCards env (plan.holeCards.filter Card.known)
           .ok { s with hole := s.hole.set p plan.holeCards
                        holeStatuses := s.holeStatuses.set p plan.holeStatuses }
-        else s.muckHoleCards p
+        else match s.muckHoleCards p with
+          | .error e => .error e
+          -- a player who mucks no longer has a say in the number of run-outs
+          | .ok s' => .ok { s' with runoutSelectors := s'.runoutSelectors.set p false }
       match s? with
       | .error e => { m with st := s, ctl := [], err := some e }
       | .ok s =>
